@@ -398,6 +398,39 @@ def axis(rep, prog, rule):
             rep.ok(rule, key, f.loc, "one image split by %s" % want)
 
 
+def pool_size_use(rep, prog, rule):
+    rep.rule(rule, "the size of the thread pool (rayon::current_num_threads and its relatives) is read "
+             "only by the band splitters -- functions that call split_by_height / split_by_width(_mut) "
+             "and hand the bands to the pool -- where it bounds the NUMBER of bands. Any other function "
+             "that reads it makes a decision that is not about banding depend on the pool: e.g. the "
+             "order of the two passes chosen by `num_threads`, which changes the intermediate rounding "
+             "of u8 images and so the bytes of the result")
+    n = 0
+    for f in sorted(prog.fns.values(), key=lambda x: x.id):
+        qs = [c for c in f.calls() if re.search(
+            r"(^|::)(current_num_threads|current_thread_index|max_num_threads|current_thread_has_pending_tasks)$",
+            c.name or "")]
+        if not qs:
+            continue
+        n += 1
+        rep.touch(f)
+        root = f
+        while root is not None and root.kind == "closure":
+            root = prog.fns.get(root.d.get("parent"))
+        root = root or f
+        splits = [c for c in root.calls() if c.method and c.method.startswith("split_by_")]
+        key = "%s|%s" % (root.name, qs[0].name.rsplit("::", 1)[-1])
+        if splits:
+            rep.ok(rule, key, qs[0].at, "read by a band splitter (%d split calls)" % len(splits))
+        else:
+            rep.bad(rule, key + "|not-a-splitter", qs[0].at,
+                    "%s reads the size of the thread pool but splits nothing: whatever it decides "
+                    "(callers: %s) depends on the number of threads, so the result of a resize can differ "
+                    "between pool sizes" % (root.name, ", ".join(sorted(
+                        {c.fn.name for c in prog.callers().get(root.id, [])}))[:160] or "-"))
+    rep.floor(rule, "functions that read the pool size", n, 3)
+
+
 def run(rep, tier):
     cfgs = ["x86-rayon"] if tier == "quick" else ["x86-rayon", "arm-rayon"]
     for cfg, prog in programs(cfgs):
@@ -405,9 +438,11 @@ def run(rep, tier):
         rep.call(offset_once, rep, prog, "C08.offset-once")
         rep.call(axis, rep, prog, "C08.axis")
         rep.call(float_restart, rep, prog, "C08.float-restart")
+        rep.call(pool_size_use, rep, prog, "C08.pool-size-use")
         rep.call(c14.aliasing, rep, prog, "C08.aliasing")
         rep.call(c14.guards, rep, prog, "C08.split-guards")
         rep.call(c14.offsets, rep, prog, "C08.split-offsets")
+        rep.call(c14.start_used, rep, prog, "C08.start-used")
         # "never panic because of how an image is split into bands ... pools with more threads
         # than rows": no band is empty (the cropped wrappers unwrap a constructor that rejects
         # an empty band)
